@@ -23,7 +23,9 @@ PY = '/venv/bin/python'
 
 
 def sh(cmd, **kw):
-    return subprocess.run(cmd, capture_output=True, text=True, **kw)
+    env = dict(os.environ)
+    env['VERIF_REPLAY_DIR'] = '/dev/shm/seeded_replays'  # replays against scratch trees are not evidence about /repo
+    return subprocess.run(cmd, capture_output=True, text=True, env=env, **kw)
 
 
 def fresh_worktree():
